@@ -42,6 +42,9 @@ CHECKS = {
  'C07': dict(engine='cases', tech='TLA+ islands for linear systems (spec/LinSolve.tla: A = G^H G + cI with exact TT cores via the core algebra of TTBase, planted full-rank solution, b = A xs exact; model-level invariants b = A xs, A Hermitian), rank profiles enumerated by TLC; replay of sle.als / sle.mals with the solver contract',
              text='TLC enumerates mode sizes, operator ranks, real/complex data and every admissible rank profile of planted solution and guess, and constructs the exact integer cores of A, xs, b, x0; the real solvers (both micro-solvers, repeats 0..3, MALS rank caps) must return the planted solution from the exact and from maximal-rank guesses, never increase the energy error, respect dims and rank bounds and leave their arguments unchanged.',
              note='trusted: TLC core algebra, numpy evaluation of the energy from exact dense A and xs; guesses restricted to full-rank interfaces', ref='§5 C07'),
+ 'C08': dict(engine='cases', tech='TLA+ islands for Hermitian (generalised) eigenproblems (spec/EigSolve.tla on LinSolve.tla: exact TT cores of A = G^H G + 2I or G + G^H, B = C^H C + I, full-rank guesses at every admissible rank profile; Hermitian-ness checked by TLC); replay of evp.als / evp.power_method with the Ritz-pair contract',
+             text='TLC enumerates sizes, ranks, definite/indefinite, standard/generalised, real/complex and all guess rank profiles and builds the exact cores; the real solver must report the Rayleigh quotient of the returned unit-norm tensor, stay below lambda_max, never move away from its target over sweeps, keep an exact dominant eigentensor, be exact at maximal ranks, agree with the explicitly shifted operator under deflation (1 and 2 tensors) and the power iteration must converge to the pair nearest its shift.',
+             note='trusted: TLC core algebra; scipy.linalg.eigh of the exact dense pencil as numeric evaluator; eigen-clauses only where the eigenvalue is separated', ref='§5 C08'),
 }
 NA_REASON = 'check not built yet (work in progress)'
 
